@@ -3,9 +3,9 @@ from props import seqcases, C02 as _C02
 
 LEVEL = "other"
 TECHNIQUE = "bounded inductive contract check (CBMC) on the real container operations over an element model with a finalisation ledger / exceptional postconditions"
-LEVEL_TEXT = "placeholder"
-NOTE = "placeholder"
-EXPLANATION = "K3"
+LEVEL_TEXT = 'The same bounded inductive harnesses as C02/C04 with a finalisation ledger in the element model: every contained element is live, held once, finalised exactly once on removal/replacement/clear/delete, and never by an internal move; copies are deep. Bounded by the container sizes of C02/C04; Tree not yet under contract.'
+NOTE = 'element model = a type with constructor, assignment and destructor owning a resource (ledger tokens); Box sharing by shallow assignment is outside the model'
+EXPLANATION = LEVEL_TEXT
 TRUSTED = []
 
 def jobs(tier):
